@@ -410,6 +410,16 @@ def run_shutdown(case: dict) -> dict:
                     peer.send(f"GET /bigwrite/{i} HTTP/1.1\r\nHost: h\r\n\r\n".encode())
                 elif kind == "stream":
                     peer.send(f"GET /stream/{ph['d'] * T + ph['pre']}/{i} HTTP/1.1\r\nHost: h\r\n\r\n".encode())
+            # clients that go away while their request is being handled (handlers are not cancelled on disconnect by
+            # default): the handler is still "a request being handled" when the shutdown comes
+            if any(ph.get("gone") for ph in case["conns"]):
+                for _ in range(5):
+                    await asyncio.sleep(0)
+                for peer, pt, st_, ph in conns:
+                    if ph.get("gone"):
+                        pt.close()
+                for _ in range(5):
+                    await asyncio.sleep(0)
             # let the requests start, then advance to the shutdown instant
             await asyncio.sleep(case["pre"])
             t0 = loop.time()
@@ -485,7 +495,7 @@ def check_shutdown(rec: Rec, case: dict) -> None:
                     raise Violation("handler-cancelled-before-timeout", f"handler of connection {i} needed {remaining:.3f}s < shutdown_timeout {T} but was cancelled / did not finish; {desc}")
                 body = out["received"][i]
                 want = b"slept-" if kind == "sleep" else b"chunk3;"
-                if want not in body:
+                if want not in body and not ph.get("gone"):
                     raise Violation("response-lost-in-shutdown", f"handler of connection {i} finished in time but its response did not reach the peer: {body[-120:]!r}; {desc}")
             ends = [e[0] for e in finished + cancelled]
             if not ends:
@@ -509,7 +519,8 @@ def check_shutdown(rec: Rec, case: dict) -> None:
         raise Violation("cleanup-exceeds-2T", f"cleanup() took {out['t_end'] - t0:.3f}s, more than twice the shutdown timeout {T}; {desc}")
     if isinstance(out["cleanup_exc"], BaseException) and not (case.get("hook_raises") and isinstance(out["cleanup_exc"], Boom)):
         raise Violation(hyp.exc_key(out["cleanup_exc"], "cleanup-raised"), f"runner.cleanup() raised {out['cleanup_exc']!r}; {desc}")
-    labels = sorted({ph["kind"] for ph in case["conns"]}) + (["slow-hook"] if case.get("hook_sleep") is not None else [])
+    labels = sorted({ph["kind"] for ph in case["conns"]}) + (["slow-hook"] if case.get("hook_sleep") is not None else []) + (
+        ["client-gone"] if any(ph.get("gone") for ph in case["conns"]) else [])
     rec.case(case, running, labels)
 
 
@@ -524,6 +535,9 @@ def shutdown_cases(draw):
         if kind in ("sleep", "stream"):
             ph["d"] = draw(st.sampled_from([0.3, 0.8, 1.5, 0.0]))
             ph["pre"] = 0.0
+        if kind in ("sleep", "never") and draw(st.integers(0, 3)) == 0:
+            ph["gone"] = True
+            ph["late"] = False
         conns.append(ph)
     pre = draw(st.sampled_from([0.0, 0.1, 0.5]))
     for ph in conns:
